@@ -144,6 +144,10 @@ func (rp *Republisher) run(ctx context.Context, timeoutShort, timeoutLong time.D
 				// Break to the end of the switch to cleanup any
 				// timers.
 				toPublish = cid.Undef
+				// Nothing is left to retry, so resume reading waiters: a
+				// failed publish may have stopped that, and without a
+				// pending value no successful publish would resume it.
+				immediatePublish = rp.immediatePublish
 				break
 			}
 
